@@ -55,6 +55,9 @@ POSITIONS = {
     'for_condition': _in_fn(lambda b, e: [b.for_(None, e, None, b.block([]))]),
     'for_update': _in_fn(lambda b, e: [b.for_(None, None, b.expr_stmt(e), b.block([]))]),
     'for_body': _in_fn(lambda b, e: [b.for_(None, None, None, b.block([b.expr_stmt(e)]))]),
+    # a loop that ends in `;` instead of a block (no body at all): its header is still code
+    'for_update_without_body': _in_fn(lambda b, e: [b.for_(None, b.var('c'), b.expr_stmt(e), None)]),
+    'for_condition_without_body': _in_fn(lambda b, e: [b.for_(None, e, b.expr_stmt(b.un('PostIncrement', b.var('k'))), None)]),
     # an occurrence that FOLLOWS (or sits inside) statements a detector may treat specially: loops without a condition, empty
     # blocks, an early return ... -- a detector that stops scanning at one of them loses the later occurrence
     'for_condition_after_conditionless_for': _in_fn(lambda b, e: [b.for_(None, None, None, b.block([b.break_()])), b.for_(b.var_stmt(u256(b), 'k', b.num(0)), None, b.expr_stmt(b.un('PostIncrement', b.var('k'))), b.block([b.break_()])),
@@ -139,7 +142,7 @@ for _k, _v in POSITIONS.items():
 QUICK_POSITIONS = ['statement', 'slice_start_only', 'slice_end_only', 'initialiser', 'if_condition', 'for_condition', 'call_argument', 'power_exponent',
                    'for_condition_after_conditionless_for', 'for_condition_inside_conditionless_for', 'after_neutral_statements',
                    'prefix_increment_operand', 'unchecked_block', 'unchecked_if_body', 'unchecked_initialiser', 'catch_body', 'try_success_block_without_returns',
-                   'call_option_value', 'modifier_argument', 'tuple_component_after_hole',
+                   'call_option_value', 'modifier_argument', 'tuple_component_after_hole', 'for_update_without_body',
                    'state_variable_initialiser', 'free_function_body', 'ternary_branch', 'second_contract']
 
 
